@@ -121,6 +121,12 @@ PAIRS = {
     "root_list_map": (lambda a, b, c, d: (cseq(cmap(("id", a))), cmap(("id", c))), "[{id: a}] <- {id: c}"),
     "sets": (lambda a, b, c, d: (cmap(("s", cset("a", "b"))), cmap(("s", cset("b", "c")))), "{s: !!set {a, b}} <- {s: !!set {b, c}}"),
     "set_clash": (lambda a, b, c, d: (cmap(("s", cset("a"))), cmap(("s", cmap(("p", c))))), "hash into set (refused)"),
+    "twin_sub": (lambda a, b, c, d: (cmap(("h", cmap(("p", a), ("l", cseq(b)))), ("z", 0)),
+                                     cmap(("h", cmap(("p", c), ("l", cseq(d)))), ("z", 0))),
+                 "{h: {p: a, l: [b]}, z} <- {h: {p: c, l: [d]}, z} (the nested hashes are equal when a == c and b == d)"),
+    "twin_aoh": (lambda a, b, c, d: (cmap(("h", cmap(("w", cseq(cmap(("id", a), ("v", b))))))),
+                                     cmap(("h", cmap(("w", cseq(cmap(("id", c), ("v", d)))))))),
+                 "{h: {w: [{id: a, v: b}]}} <- {h: {w: [{id: c, v: d}]}} (equal nested hash holding an Array-of-Hashes)"),
     "deep3": (lambda a, b, c, d: (cmap(("h", cmap(("g", cmap(("p", a), ("l", cseq(b)))))), ("z", 0)),
                                   cmap(("h", cmap(("g", cmap(("l", cseq(c)), ("q", d))))))), "three levels with an array at the bottom"),
 }
@@ -213,7 +219,7 @@ def _mk(pair, fixed=None):
 
 
 QUICK = ["scalars", "nested", "arrays", "aoh", "aoh_strids", "clash_list_over_scalar", "clash_emptylist_over_scalar", "clash_scalar_over_map",
-         "clash_map_over_list", "root_lists", "root_map_scalar", "sets", "empties", "root_list_map", "root_aoh"]
+         "clash_map_over_list", "root_lists", "root_map_scalar", "sets", "empties", "root_list_map", "root_aoh", "twin_sub", "twin_aoh"]
 
 
 def shards(tier, seed):
